@@ -8,7 +8,9 @@ Names == {"fa", "fb", "fc"}
 Dirs == {"d1", "d2"}
 Contents == {<<>>} \cup {<< <<"include", n>> >> : n \in Names} \cup {<< <<"embed", "sexp", n>> >> : n \in Names}
             \cup {<< <<"include", n>>, <<"embed", "bin", m>> >> : n \in {"fb"}, m \in {"fc"}}
-Mains == {<< <<"include", "fa">> >>, << <<"embed", "bin", "fa">> >>, << <<"include", "fa">>, <<"include", "fb">> >>}
+            \cup {<< <<"nested", << <<"include", n>> >> >> >> : n \in {"fc"}}
+Mains == {<< <<"include", "fa">> >>, << <<"embed", "bin", "fa">> >>, << <<"include", "fa">>, <<"include", "fb">> >>,
+          << <<"nested", << <<"include", "fa">> >> >> >>, << <<"include", "fb">>, <<"nested", << <<"embed", "sexp", "fa">> >> >> >>}
 Paths == {<<"d1", "d2">>, <<"d2", "d1">>, <<"d1">>}
 
 SetToSeq(S) == CHOOSE s \in [1..Cardinality(S) -> S] : \A i, j \in 1..Cardinality(S) : i # j => s[i] # s[j]
@@ -20,8 +22,10 @@ AddFile(d, n, c) == /\ ~emitted /\ Cardinality(DOMAIN fs) < MaxFiles /\ <<d, n>>
                     /\ fs' = (<<d, n>> :> c) @@ fs /\ UNCHANGED emitted
 \* acyclic include graphs only (a cyclic one makes both the compiler and the listing loop by design bound `fuel`)
 RECURSIVE Acyclic(_, _, _)
-Acyclic(f, c, seen) == \A i \in 1..Len(c) : c[i][1] = "include" =>
-                         LET n == c[i][2] IN n \notin seen /\ \A d \in Dirs : <<d, n>> \in DOMAIN f => Acyclic(f, f[<<d, n>>], seen \cup {n})
+Acyclic(f, c, seen) == \A i \in 1..Len(c) :
+                         /\ c[i][1] = "include" =>
+                              LET n == c[i][2] IN n \notin seen /\ \A d \in Dirs : <<d, n>> \in DOMAIN f => Acyclic(f, f[<<d, n>>], seen \cup {n})
+                         /\ c[i][1] = "nested" => Acyclic(f, c[i][2], seen)
 Emit == /\ ~emitted /\ emitted' = TRUE /\ UNCHANGED fs
         /\ \A main \in Mains : Acyclic(fs, main, {}) =>
              \A p \in Paths :
@@ -29,7 +33,9 @@ Emit == /\ ~emitted /\ emitted' = TRUE /\ UNCHANGED fs
                /\ Assert(ListingResolves(fs, p, main), <<"listing names a file that is not the first match", fs, p, main>>)
                /\ PrintT(<<"V", ToJson([files |-> LET ks == SetToSeq(DOMAIN fs) IN [i \in 1..Len(ks) |-> <<ks[i][1], ks[i][2], fs[ks[i]]>>], path |-> p, main |-> main,
                                          reads |-> SetToSeq(ReadsOf(fs, p, main, 6).files), err |-> ReadsOf(fs, p, main, 6).err,
-                                         noembed_differs |-> DepsNoEmbed(fs, p, main, 6) # ReadsOf(fs, p, main, 6).files])>>)
+                                         reads_lazy |-> SetToSeq(ReadsLazy(fs, p, main, 6).files), err_lazy |-> ReadsLazy(fs, p, main, 6).err, form_in_file |-> FormInFile(fs, p, main, FALSE, 6),
+                                         noembed_differs |-> DepsNoEmbed(fs, p, main, 6) # ReadsOf(fs, p, main, 6).files,
+                                         nonested_differs |-> DepsNoNested(fs, p, main, 6) # ReadsOf(fs, p, main, 6).files])>>)
 Next == (\E d \in Dirs, n \in Names, c \in Contents : AddFile(d, n, c)) \/ Emit
 Spec == Init /\ [][Next]_vars
 =============================================================================
